@@ -89,6 +89,16 @@ CHECKS = {
           "Two clones on the owner's endpoint (shared cache) and two independently sent handles on a remote endpoint run scripts of <= 3 operations over {read and hold, write+commit, write+drop}, cold and warm caches; a write shifted by k = 0..23/39 steps against a read on another handle, each with a further deviation; loss of the connection of an endpoint holding a read or write guard. Oracle: no write guard interval overlaps any other guard, write guards obtain the latest commit, reads return a value current at some instant of the call, commits are never lost, dropped write guards change nothing, and with all guards released every request completes (no deadlock).",
           "Guard intervals measured with the scheduler step counter; a write guard ends when commit() consumes it. Holder-loss cases judge the surviving endpoint only. Quick tier is time-capped (reported).",
           "DESIGN.md 4/C17"),
+  "C13": ("model_checking",
+          "bounded exhaustive enumeration of operation sequences over each collection's full mutating API x initial contents x subscription points x modes on the real robs code, four kinds of consumer compared with the observable itself; deviation-bounded schedule exploration of representative sequences",
+          "Vector, deque, hash map, hash set, list: every sequence of depth <= 2 (quick) / 3 (thorough) (sets 3/4, lists 4) over alphabets of 13-28 operations (incl. get_mut / iter_mut with and without writing, entry API, retain incl. a value-mutating predicate, resize both ways, swap_remove_back/front, extend, out-of-range and no-op cases, done), from the empty collection and from every content state over {0,1,2} of length <= 2/3 built through From; a snapshot and an incremental subscription is taken before every operation and consumed by mirror(), by two mirrors subscribed to that mirror, by hand (events replayed on a std collection) and by a mirror on a remote endpoint; at quiescence contents, done flag, completeness and detach() must equal the observable's; done() followed by an immediate drop must still deliver everything. Delivery schedules of 7 representative sequences with <= 1/2 deviations.",
+          "Buffers large enough not to lag (C14's subject). Known finding F4 (retain with a value-mutating predicate on hash maps).",
+          "DESIGN.md 4/C13"),
+  "C14": ("model_checking",
+          "bounded exhaustive enumeration of subscriber-speed patterns x event buffers x size limits x endings x cut points x joining points on the real robs code with a history oracle on every observation; forged event streams from a peer; deviation-bounded schedule exploration of core cases",
+          "For vector, deque, hash map, hash set and list: scripts of 3 (quick) / 2,3,5 (thorough) single-event operations, all 2^n patterns of where the consumers get to run, event buffer 1/2/(3)/1024, mirror size limit (1)/2/(3)/100, ending done / done+drop / drop / kept, consumers local or on a remote endpoint, connection cut after k operations, a second group of subscribers joining mid-way; per group a snapshot and an incremental subscription each consumed by a watched mirror (every change observed via borrow_and_update/changed, then borrow twice and detach) and by hand with the replica state recorded after every event. Oracle: every presented state is a state of the collection's history after the subscription point, in order and without skipping; a consumer that does not end on the final state (with Done) ends with an error of the class its situation allows and a mirror keeps reporting it; detach returns a history state; list subscribers receive everything. Forged streams: out-of-range Set/Insert/Remove/SwapRemove(Back/Front) and Resize/Insert/Push past max_size must be reported (InvalidIndex / MaxSizeExceeded), not applied, and nothing after them applied. Joining a mirror while a reader holds a borrow and an event is queued. Schedules of core cases with <= 1/2 deviations.",
+          "Scripts use single-event operations so intermediate replica states are history states. Virtual time; connection failure = cut of both directions.",
+          "DESIGN.md 4/C14"),
   "C20": ("model_checking",
           "bounded exhaustive enumeration of handle travel paths x accessors x drop orders on a 3-endpoint triangle and of lazy value/blob sizes x hops x cut frames on a 4-endpoint chain, against a small reference model; deviation-bounded schedule exploration of core cases",
           "Handles: every path over <= 3 connections of the triangle A-B, B-C, C-A (incl. returning over the other connection and a second round trip), as_ref / as_mut / cast+as_ref / into_inner at every stop, clones kept, sent home individually, dropped before/after the original, provider kept or dropped. Oracle: the value (with identity 4242) is obtainable only at its origin, at its original type, while not taken; every other access is an error, never another value; a handle or clone coming home over the connection it left on works; the drop counter of the stored value becomes 1 exactly once, after the last handle/provider is gone and not earlier. Lazy/LazyBlob: sizes 0/1/chunk/buffer+1/3*buffer/1000 over 1..3 connections, fetched once or twice concurrently, chunked relaying, provider dropped, connection cut after every frame on every link: a fetch returns exactly what was provided or an error, never a shorter value.",
